@@ -71,6 +71,68 @@ func C13(c *core.Ctx) {
 			}
 			c.Check("R1", "push-copies", sel.Pos(), fresh && copied, "what is queued is a fresh copy of the whole packet (the netlink read buffer is reused by the caller)")
 		}
+		// the channel the packet is offered on is this PDR's queue on every path: the one found in the map,
+		// or the one just created and entered in the map (never the nil channel of a failed lookup: a send
+		// on nil is never ready, so select/default would drop the packet although the queue is empty)
+		if okSel {
+			pdr := core.Param(fn, 0)
+			var qV, okV ssa.Value
+			core.Instrs(fn, func(in ssa.Instruction) {
+				if lk, isLk := in.(*ssa.Lookup); isLk && lk.CommaOk && core.IsPath(lk.X, core.Recv(fn), "q") && lk.Index == ssa.Value(pdr) {
+					for _, r := range *lk.Referrers() {
+						if ex, isEx := r.(*ssa.Extract); isEx {
+							if ex.Index == 0 && qV == nil {
+								qV = ex
+							} else if ex.Index == 1 && okV == nil {
+								okV = ex
+							}
+						}
+					}
+				}
+			})
+			entered := func(v ssa.Value) bool { // a channel that is (also) stored under s.q[pdrid]
+				switch x := v.(type) {
+				case *ssa.MakeChan:
+					for _, r := range *x.Referrers() {
+						if mu, isMu := r.(*ssa.MapUpdate); isMu && mu.Value == ssa.Value(x) && mu.Key == ssa.Value(pdr) && core.IsPath(mu.Map, core.Recv(fn), "q") {
+							return true
+						}
+					}
+				case *ssa.Lookup: // q = s.q[pdrid] re-read after the store
+					if !x.CommaOk && core.IsPath(x.X, core.Recv(fn), "q") && x.Index == ssa.Value(pdr) {
+						stored := false
+						core.Instrs(fn, func(in ssa.Instruction) {
+							if mu, isMu := in.(*ssa.MapUpdate); isMu && mu.Key == ssa.Value(pdr) && core.IsPath(mu.Map, core.Recv(fn), "q") && core.InstrDominates(mu, x) {
+								if _, isMk := mu.Value.(*ssa.MakeChan); isMk {
+									stored = true
+								}
+							}
+						})
+						return stored
+					}
+				}
+				return false
+			}
+			good := false
+			ch := sel.States[0].Chan
+			switch x := ch.(type) {
+			case *ssa.Phi:
+				good = true
+				for i, e := range x.Edges {
+					pred := x.Block().Preds[i]
+					if e == qV && okV != nil && edgeKnown(pred, x.Block(), okV, true) {
+						continue
+					}
+					if entered(e) {
+						continue
+					}
+					good = false
+				}
+			default:
+				good = (ch == qV && okV != nil && core.KnownAt(sel.Block(), okV, true)) || entered(ch)
+			}
+			c.Check("R1", "push-own-queue", sel.Pos(), good && qV != nil, "on every path the packet is offered on the PDR's own queue: the one found under s.q[pdrid], or the one just created and entered there")
+		}
 		// capacity
 		core.Instrs(fn, func(in ssa.Instruction) {
 			if mk, ok := in.(*ssa.MakeChan); ok {
@@ -165,8 +227,13 @@ func C13(c *core.Ctx) {
 
 	// R2: the notification goes towards the SMF that owns the session now (shared with C10 R4)
 	reportDestination(c, "R2")
+	// every buffered-packet notification reaches the event loop (back-pressure, not loss: the per-PDR queue,
+	// not this bridge, decides what is dropped)
+	losslessPost(c, "R2", p.SSAFn(p.Method(pkgPfcp, "PfcpServer", "NotifySessReport")), p.Field(pkgPfcp, "PfcpServer", "srCh"), "a buffered-packet notification")
 	// R3: per-PDR state of the release loops does not leak into the next PDR
 	independentIterations(c, "R3", []*ssa.Function{p.SSAFn(p.Method(pkgFwd, "Gtp5g", "applyAction"))})
+	// R4: the last hop writes the encoded datagram as it is (shared with C14 R3)
+	linkPassThrough(c, "R4")
 	// R7 extent of the buffered packet handed up by the data plane
 	c13PacketExtent(c)
 
@@ -314,14 +381,18 @@ func C13(c *core.Ctx) {
 
 	// R4 = C14 R3
 	sub, _ := core.NewCtx(c.P, "C14", c.Tier, c.Seed, c.OutDir, "")
-	c14CallSite(sub)
+	if full, ok := Registry["C14"]; ok {
+		full(sub) // call site AND emitted layout: the payload a peer extracts is the buffered packet only if flags, length and offsets are right
+	} else {
+		c14CallSite(sub)
+	}
 	okCS := true
 	var bad []string
 	for _, f := range sub.Findings {
 		okCS = false
 		bad = append(bad, strings.TrimPrefix(f.Key, "C14/"))
 	}
-	c.Check("R4", "encapsulation-sources", token.NoPos, okCS, fmt.Sprintf("WritePacket takes peer address, port and TEID from the FAR's outer header creation and the QFI from the QER (C14 R3) %v", bad))
+	c.Check("R4", "encapsulation-sources", token.NoPos, okCS, fmt.Sprintf("WritePacket takes peer address, port and TEID from the FAR's outer header creation and the QFI from the QER, and the emitted G-PDU has the layout of C14 (R1-R3) %v", bad))
 
 	// R5 lifetime
 	if fn := fnOf(c, "R5", pkgPfcp, "Sess", "Close"); fn != nil {
